@@ -74,7 +74,7 @@ def cargo_build(bins=None):
         _built = True
 
 
-def run_bin(name, args, timeout=1800, env_extra=None, stdin=None):
+def run_bin(name, args, timeout=900, env_extra=None, stdin=None):
     """Run a harness binary. Returns (returncode, stdout, stderr)."""
     exe = os.path.join(HARNESS, "target", "debug", name)
     if not os.path.exists(exe):
